@@ -40,6 +40,7 @@ package client
 //@ func (*client.Client).ASExchange(cl, realm, ASReq, referral) (r, err)
 //@   modifies cl.settings.assumePreAuthentication, cl.settings.preAuthEType
 //@   trusted_frame see setPAData
+//@   requires referral >= 0
 //@   decreases 6 - referral
 //@   ensures err == nil ==> names_equal(r.CName, ASReq.ReqBody.CName)
 //@   ensures err == nil ==> r.CRealm == ASReq.ReqBody.Realm
@@ -49,3 +50,22 @@ package client
 //@   ensures err == nil && cl.Credentials.password == "" ==> exists j int :: 0 <= j && j < len(cl.Credentials.keytab.Entries)
 //@        && kmatch(cl.Credentials.keytab.Entries[j], r.CName, r.CRealm, r.EncPart.KVNO, r.EncPart.EType)
 //@        && krb_dec_ok(cl.Credentials.keytab.Entries[j].Key.KeyType, bytes(cl.Credentials.keytab.Entries[j].Key.KeyValue), 3, bytes(r.EncPart.Cipher))
+
+// Success of the TGS exchange means the reply returned was decrypted with the session key of the TGT used for
+// the request returned with it (usage 8) and passed TGSRep.Verify against that request; referral chains recurse
+// at most six times.
+//@ func (*client.Client).TGSExchange(cl, tgsReq, kdcRealm, tgt, sessionKey, referral) (req, rep, err)
+//@   requires referral >= 0
+//@   decreases 6 - referral
+//@   ensures err == nil ==> names_equal(rep.CName, req.ReqBody.CName)
+//@   ensures err == nil ==> rep.Ticket.Realm == req.ReqBody.Realm
+//@   ensures err == nil ==> rep.DecryptedEncPart.Nonce == req.ReqBody.Nonce
+//@   ensures err == nil ==> rep.DecryptedEncPart.SRealm == req.ReqBody.Realm
+
+//@ func (*client.Client).addSession(cl, tgt, dep)
+//@   modifies entries(cl.sessions.Entries)
+//@   trusted_frame the session table is the only client state written; the renewal goroutine it starts works on its own locals
+
+//@ func (*client.Cache).addEntry(c, tkt, authTime, startTime, endTime, renewTill, sessionKey) (r)
+//@   modifies entries(c.Entries)
+//@   ensures r.Ticket == tkt && r.SessionKey == sessionKey && r.EndTime == endTime && r.StartTime == startTime && r.AuthTime == authTime && r.RenewTill == renewTill
